@@ -694,6 +694,25 @@ var (
 
 // genPow: bases at the int64 overflow boundary and at the 2^53 representation boundary of every exponent
 func genPow(r *vh.Rng) Case {
+	if r.Chance(30) { // the power lands exactly on / next to 2^52..2^54 or 2^62..2^64: base 2^k (+-1), k*e in those sets
+		e := 1 + r.Intn(64)
+		t := []int{52, 53, 54, 62, 63, 64, 53, 63}[r.Intn(8)]
+		k := t / e
+		if k < 1 {
+			k = 1
+		}
+		if k > 53 {
+			k = 53
+		}
+		x := int64(1)<<uint(k) + int64(r.Pick(70, 15, 15)+1)%3 - 1 // 2^k, 2^k+1, 2^k-1
+		if x > 9007199254740992 {
+			x = 9007199254740992
+		}
+		if r.Bool() {
+			x = -x
+		}
+		return Case{Kind: "pow", Var: r.Intn(3), X: strconv.FormatInt(x, 10), Y: e}
+	}
 	e := 2 + r.Intn(20)
 	switch r.Pick(70, 8, 12, 10) {
 	case 1:
@@ -1162,7 +1181,7 @@ func genStr(r *vh.Rng) Case {
 }
 
 func genCase(r *vh.Rng) Case {
-	switch r.Pick(26, 28, 9, 13, 10, 6, 5, 3) {
+	switch r.Pick(25, 26, 9, 13, 10, 9, 5, 3) {
 	case 5:
 		return genPow(r)
 	case 6:
